@@ -74,7 +74,7 @@ def fault_of(rc, out):
     return ""
 
 
-def run_inputs(build, inputs, jobs=None, timeout=20, hooks=True, env_extra=None, vlimit_kb=4000000, tag="c07"):
+def run_inputs(build, inputs, jobs=None, timeout=20, hooks=True, env_extra=None, vlimit_kb=4000000, tag="c07", stack_kb=None):
     """Compile every input in its own compiler process (jobs shell loops in parallel).  Returns dt.Run objects
     (events = Reset .. Observed) in the order of `inputs`."""
     jobs = jobs or vlib.NCPU
@@ -100,6 +100,8 @@ def run_inputs(build, inputs, jobs=None, timeout=20, hooks=True, env_extra=None,
             fh.write("cd '%s'\n" % d)
             if vlimit_kb:
                 fh.write("ulimit -v %d\n" % vlimit_kb)
+            if stack_kb:
+                fh.write("ulimit -s %d\n" % stack_kb)
             fh.write("ulimit -c 0\n")
             for i in idx:
                 inp = inputs[i]
